@@ -61,6 +61,16 @@ def grid_ops(T, a, b, conv):
     yield 'pv', (lambda: comps(Point(*ca).pv())), list(ca)
     yield 'index', (lambda: [va[0], va[1], va[2]]), list(ca)
     yield 'list-ctor', (lambda: comps(Vector(list(ca)))), list(ca)
+
+    def list_owned():
+        lst = list(ca)
+        v = Vector(lst)
+        w = Vector(lst)
+        lst[0] = cb[0]
+        lst[2] = cb[2]
+        w[1] = cb[1]
+        return comps(v) + lst + [w[0], w[2]]
+    yield 'list-ctor-owns-its-coordinates', list_owned, list(ca) + [cb[0], ca[1], cb[2]] + [ca[0], ca[2]]
     yield 'point-move', (lambda: comps(Point(*ca).move(vb).pv())), [x + y for x, y in zip(ca, cb)]
 
 
@@ -398,13 +408,16 @@ def families(tier):
     fams.append(ListFamily('promotion-nonbinary', [('promo', c, ks) for c in ('Vector', 'Vector-list', 'Point') for ks in product(kinds2, repeat=3)]))
     scales = (F(1, 10 ** 6), F(1, 1000), 1, 1000, 10 ** 6)
     sc = []
+    for d in A.D3ALL[::2]:
+        for t in ('int', 'float', 'Fraction'):
+            sc.append(('metric', t, d, 1 if t != 'float' else 1.0))
     for d in A.D2:
         for sca in scales:
             for t in ('int', 'float', 'Fraction'):
                 if t == 'int' and F(sca) < 1:
                     continue
                 sc.append(('metric', t, d, sca if t != 'float' else float(sca)))
-    fams.append(ListFamily('metric', sc, chunk=100))
+    fams.append(ListFamily('metric', list(dict.fromkeys(sc)), chunk=100))
     tv = [(x, y, z) for x in TINY for y in TINY[:4] for z in (0.0, -3.0)]
     fams.append(ListFamily('tiny-differences', [('tiny', a, b) for a in tv[::3] for b in tv], chunk=400))
     ds = A.D1 if tier == 'quick' else A.D2
